@@ -1047,6 +1047,20 @@ class Interp:
             left = right
         return acc
 
+    def expr_Yield(self, e, fr):
+        """`yield` of a contextlib.contextmanager generator: the with-body runs here.  It may change every ghost
+        location arbitrarily (havoc) and may raise (the exception is re-raised at the yield)."""
+        if 'contextlib.contextmanager' not in fr.fi.decorators:
+            raise Unsupported('yield outside a contextmanager generator')
+        from .lib import RngState, rng_now
+        rng_now(self.ctx)
+        self.ctx.ghost['RNG'] = fresh('RNG_after_body', RngState)
+        if self.ctx.choose('with-body', ['returns', 'raises']) == 'raises':
+            self.ctx.ghost['body_raises'] = True
+            raise PyRaise('BodyException', 'raised by the body of the with statement')
+        self.ctx.ghost['body_raises'] = False
+        return None
+
     def expr_Lambda(self, e, fr):
         return LambdaVal(e, fr)
 
